@@ -763,6 +763,8 @@ class TFLiteSemantic:
           - Reduction in Depth axis is supported if at least one of H,W,C are of size 1."""
         input_shape = op.inputs[0].shape
         dims = len(input_shape)
+        if op.inputs[1].values is None:
+            return False, f"Op has non-constant axis tensor '{op.inputs[1].name}'"
         if op.inputs[1].shape == []:
             axis = [int(op.inputs[1].values)]
         else:
